@@ -40,6 +40,8 @@ func init() {
 			}
 			add(qast.TreeUnits("tree|full|1|var", len(treeSet("full0")), 1), 1)
 			add(qast.TreeUnits("tree|small6|2|var", len(treeSet("small1")), 8), 2)
+			// leaves whose quoted / regexp / escaped text contains brackets, colons and key words
+			add(qast.TreeUnits("tree|c05x|1|var", len(treeSet("c05x0")), 1), 1)
 			if tier == "thorough" {
 				add(qast.TreeUnits("tree|full|2|var", len(treeSet("full1")), 60), 4)
 			}
@@ -48,7 +50,7 @@ func init() {
 		Run:    c09Run,
 		Eval:   c09Eval,
 		Shrink: c09Shrink,
-		Rule: "bases: TOK(Σ_full,N) (accepted and rejected) and TREE texts; variants: every gap filled uniformly from {tab, newline, CR, two spaces, mixed} and with nothing where the neighbours cannot fuse, " +
+		Rule: "bases: TOK(Σ_full,N) (accepted and rejected) and TREE texts (all variants on both); variants: every gap filled uniformly from {tab, newline, CR, two spaces, mixed} and with nothing where the neighbours cannot fuse, " +
 			"every single-gap deviation, leading/trailing fillings; every case pattern of every keyword occurrence; redundant parentheses at the root, at each operand of an explicit operator and around each term value; " +
 			"non-trivial = base parses; distinct = distinct base trees; states count variants",
 		Assumptions: []string{"only the four ASCII whitespace characters the lexer documents", "the empty filler is used only next to a symbol token ()[]{}:+=><~^ (never merges tokens)"},
@@ -342,6 +344,27 @@ func c09Run(w *core.Worker, tier, unit string) {
 					}
 					core.Unguard()
 					w.Do(core.Case{Kind: "paren", In: core.BStr(baseText), In2: core.BStr(vt), DF: df, Aux: core.BStr(spec), Tree: enc})
+					core.Guard(&bc)
+				} else {
+					w.Tick(1)
+				}
+			}
+			// white space and keyword case on the tree's text too (value lists, ranges and groups are
+			// longer than the token-sequence bound)
+			toks := splitTokens(baseText)
+			for _, spec := range layoutSpecs(toks, false) {
+				vt, ok := applyLayout(toks, spec)
+				if !ok || vt == baseText {
+					continue
+				}
+				v := doParse(vt, df)
+				if class, _, _ := c09Compare(base, v, true); class != "" {
+					kind := "ws"
+					if strings.HasPrefix(spec, "case") || spec == "lower" {
+						kind = "case"
+					}
+					core.Unguard()
+					w.Do(core.Case{Kind: kind, In: core.BStr(baseText), In2: core.BStr(vt), DF: df, Aux: core.BStr(spec)})
 					core.Guard(&bc)
 				} else {
 					w.Tick(1)
